@@ -51,6 +51,10 @@ func props(ids ...string) map[string]bool {
 	return m
 }
 
+// lifeMust: operation kinds every check built on the lifecycle family has to see succeed at least once (a kind that is
+// always rejected means a path the scenarios were built for is not reached: the run is reported as vacuous)
+var lifeMust = []string{"store", "store-pending", "ready", "store-sponsored", "complete", "renew", "terminate", "migrate", "cancel", "update", "forcepush", "claim", "send", "addv", "removev", "end"}
+
 var lifeAssumptions = []string{
 	"SDK modules (bank, auth, staking, params) and Tendermint are trusted",
 	"handlers are driven through MsgServiceRouter on a branched store with a finite gas meter, as baseapp.runMsgs does; ante handler and signature checks are exercised only in the ABCI conformance leg",
@@ -217,7 +221,7 @@ func init() {
 			rule = toRule
 		}
 		register(&Check{ID: id, Level: "model_checking", Workers: 16, Rule: rule, Assumptions: lifeAssumptions,
-			MustSucceed: []string{"store", "complete", "renew", "terminate", "migrate", "end"},
+			MustSucceed: lifeMust,
 			Scenarios: func(tier string) []*engine.Scenario {
 				out := lifeFamily(id, tier, props(id), tweak)
 				if withTO {
@@ -231,7 +235,7 @@ func init() {
 			o.Mid = true
 		}
 	})
-	register(&Check{ID: "C06", Level: "model_checking", Workers: 16, Rule: fmt.Sprintf(lifeRule, ", (c) sponsored orders whose owner DID has no payment address (refunds parked for the DID)"), Assumptions: lifeAssumptions,
+	register(&Check{ID: "C06", Level: "model_checking", Workers: 16, Rule: fmt.Sprintf(lifeRule, ", (c) sponsored orders whose owner DID has no payment address (refunds parked for the DID)"), Assumptions: lifeAssumptions, MustSucceed: lifeMust,
 		Scenarios: func(tier string) []*engine.Scenario {
 			out := lifeFamily("C06", tier, props("C06"), nil)
 			sp := r1Life("C06", tier, props("C06"))
@@ -244,13 +248,13 @@ func init() {
 		}})
 	for _, id := range []string{"C07", "C14"} {
 		id := id
-		register(&Check{ID: id, Level: "model_checking", Workers: 16, Rule: fmt.Sprintf(lifeRule, ", (c) capacity pledge add/remove around the free-capacity and rounding boundaries interleaved with store/complete/terminate/expiry"), Assumptions: lifeAssumptions,
+		register(&Check{ID: id, Level: "model_checking", Workers: 16, Rule: fmt.Sprintf(lifeRule, ", (c) capacity pledge add/remove around the free-capacity and rounding boundaries interleaved with store/complete/terminate/expiry"), Assumptions: lifeAssumptions, MustSucceed: lifeMust,
 			Scenarios: func(tier string) []*engine.Scenario {
 				out := append(lifeFamily(id, tier, props(id), nil), LifeScenario(capLife(id, tier, props(id))))
 				return append(out, TimeoutFamily(id, tier, props(id))...)
 			}})
 	}
-	register(&Check{ID: "C15", Level: "exploration", Workers: 16,
+	register(&Check{ID: "C15", Level: "exploration", Workers: 16, MustSucceed: lifeMust,
 		Rule:        "engine E: RandomIndex for all (total<=9, count<total) x seeds {0..N} u {2^k} u big values, and RandomSP for all node populations (multisets over 11 attribute classes, both store orders) x ignore lists (size<=2) x count 1..4 x cursor {unset,0..5} x 10 seeds, each result checked for distinctness, ignore-list, eligibility and size; engine X: every shard assignment made by store/timeout/migrate in the lifecycle and fault-sequence explorations; distinct_nontrivial = distinct (index tuple) + (count/eligible/returned) outcomes + states with a completed shard",
 		Assumptions: append([]string{"populations larger than 5 nodes and attribute values outside the 11 classes are not covered"}, lifeAssumptions...),
 		Scenarios: func(tier string) []*engine.Scenario {
@@ -263,7 +267,7 @@ func init() {
 			return append(out, LifeScenario(fp))
 		},
 		Extra: func(tier string, shard, of int) ExtraResult { return SelectExtra(tier, shard, of, "C15") }})
-	register(&Check{ID: "C02", Level: "model_checking", Workers: 16,
+	register(&Check{ID: "C02", Level: "model_checking", Workers: 16, MustSucceed: lifeMust,
 		Rule:        "engine X with halt reporting: every EndBegin (custom end-blockers + node begin-blocker) of the lifecycle, capacity and fault-sequence explorations, with rewards off and on, must return without panic and within the CPU watchdog; every tx that panics must be a rejected tx (checked against real DeliverTx in the conformance leg); engine E: RandomIndex / RandomSP / GetNextSuperNodes under the CPU guard over the enumerated inputs; non-trivial = distinct states holding at least one completed shard",
 		Assumptions: append([]string{"bounded time is decided by a CPU watchdog (25 CPU-seconds per transition, slowest terminating transition is milliseconds), not by a termination proof"}, lifeAssumptions...),
 		Scenarios: func(tier string) []*engine.Scenario {
